@@ -307,6 +307,14 @@ fn main() {
                 None => {
                     println!("{{\"started\": false, \"args\": {:?}}}", sargs);
                 }
+                Some(mut ch) if a.contains_key("mem-probe") => {
+                    // C14 / C15 on the binary: the configured memory limit is the one the eviction works with
+                    let lim: u64 = get("mem-probe", "65536").parse().unwrap();
+                    let n = ext::mem_probe(port, lim, &get("out", "memprobe.ndjson"));
+                    let _ = ch.kill();
+                    let _ = ch.wait();
+                    println!("{}", serde_json::json!({"started": true, "args": sargs, "scenarios": n}));
+                }
                 Some(mut ch) if a.contains_key("conn-only") => {
                     // C17: connection-limit scenarios only
                     let n = ext::conn_scenarios(port, conn_limit, item_limit, seed, nprog, &get("out", "cfgconn.ndjson"));
